@@ -193,6 +193,9 @@ package scheduler
 //@   ghost qd $dom[string] = nil
 //@   ghost qv $val[string]container.QueueEnt = nil
 //@   calls WorkerPool.Running#1: set rm = $r
+//@   # giving up on unprobed workers happens after the configured stale-lock
+//@   # timeout (not after some other, shorter, interval)
+//@   calls time.NewTimer#1: requires $0 == sch.staleLockTimeout
 //@   calls ContainerQueue.Entries#1: set qd = dom($r0)
 //@   calls ContainerQueue.Entries#1: set qv = vals($r0)
 //@   # the list of containers to unlock is rebuilt from nothing in every round
